@@ -861,7 +861,26 @@ def classify(lang, tree, strat):
             r2 = None
         cross = not (r2 and r2[0] == "text")
     if cross:
-        # the failure disappears when every node is completed BEFORE it is attached to its parent
+        # the failure disappears when every node is completed BEFORE it is attached to its parent.
+        # Is it repaired by running linkProperties() on the ancestors of the receiver, bottom-up, after the history?  That
+        # is what add() itself does since 54ff0b6: if it helps, an ancestor was NOT re-linked — a different root cause
+        # from the known residual (links of an earlier run that the final runs no longer write).
+        try:
+            wr = _world()
+            wr.run(ops, snaps=False)
+            o = wr.objs[recv].parentConst
+            seen = set()
+            from harness.impl import snapshot as _snap
+            _snap.load(lang)
+            while o is not None and id(o) not in seen:
+                seen.add(id(o))
+                o.linkProperties()
+                o = o.parentConst
+            if wr.realize(root) == w3.realize(broot):
+                return "cross-level|an ancestor of the receiver was not re-linked|recv=%s|under=%s" % (
+                    na[recv]["k"], "<".join(na[a]["k"] for a in anc))
+        except Exception:  # noqa
+            pass
         near = "none"
         for a in anc:
             if any(d.startswith("anc:%s:" % na[a]["k"]) for d in diffs):
@@ -943,6 +962,8 @@ def panel():
         P("NP", T("D", "the"), T("N", "cat"), P("SP", T("Pro", "that"), P("VP", T("V", "sleep"))), opts=[["n", "p"]]),
         P("S", P("CP", T("C", "and"), P("NP", T("D", "the"), T("N", "cat")), P("NP", T("D", "the"), T("N", "dog"))), P("VP", T("V", "sleep"))),
         P("NP", T("NO", "2"), T("A", "red"), T("N", "mouse")),
+        P("NP", T("D", "the"), T("N", "child", ["n", "p"]), P("SP", T("Pro", "who"), P("VP", T("V", "be"), T("A", "good")))),
+        P("NP", T("D", "the"), T("N", "dog", ["n", "p"]), P("SP", T("Pro", "which"), P("VP", T("V", "eat"), P("NP", T("D", "a"), T("N", "mouse"))))),
         Dp("root", T("V", "eat"), Dp("subj", T("N", "cat", ["n", "p"]), Dp("det", T("D", "the")), Dp("mod", T("A", "big"))),
            Dp("comp", T("N", "mouse"), Dp("det", T("D", "a"))), Dp("mod", T("Adv", "quickly"))),
         Dp("root", T("V", "sleep"), Dp("coord", T("C", "and"), Dp("subj", T("N", "cat"), Dp("det", T("D", "the"))),
@@ -954,6 +975,10 @@ def panel():
         P("S", P("NP", T("D", "le"), T("N", "femme")), P("VP", T("V", "être"), T("A", "petit")), opts=[["n", "p"]]),
         P("NP", T("D", "le"), T("N", "souris"), P("SP", T("Pro", "qui"), P("VP", T("V", "dormir"))), opts=[["n", "p"]]),
         P("NP", T("NO", "2"), T("N", "femme"), T("A", "rouge")),
+        P("NP", T("D", "le"), T("N", "femme", ["n", "p"]), P("SP", T("Pro", "qui"), P("VP", T("V", "être"), T("A", "beau")))),
+        P("NP", T("D", "le"), T("N", "souris", ["n", "p"]),
+          P("SP", T("Pro", "que"), T("Pro", "je"), P("VP", T("V", "avoir"), T("V", "manger", ["t", "pp"])))),
+        P("NP", T("D", "le"), T("N", "femme"), P("SP", T("Pro", "lequel"), P("VP", T("V", "dormir")))),
         Dp("root", T("V", "manger"), Dp("subj", T("N", "femme", ["n", "p"]), Dp("det", T("D", "le")), Dp("mod", T("A", "grand"))),
            Dp("comp", T("N", "souris"), Dp("det", T("D", "un"))), Dp("mod", T("Adv", "vite"))),
         Dp("root", T("V", "être"), Dp("subj", T("N", "femme"), Dp("det", T("D", "le"))), Dp("comp", T("A", "petit"))),
